@@ -11,7 +11,7 @@ unset GOWORK
 SRC=$1; ID=$2
 WT=/tmp/seedverify/$ID
 rm -rf $WT; mkdir -p /tmp/seedverify
-git -C /repo worktree add -q --detach $WT HEAD || { echo "$ID worktree-failed"; exit 2; }
+git -C /repo worktree add -q --detach $WT ${SEED_BASE:-HEAD} || { echo "$ID worktree-failed"; exit 2; }
 cleanup() { git -C /repo worktree remove --force $WT 2>/dev/null; rm -rf $WT; }
 trap cleanup EXIT
 cd $WT
